@@ -480,6 +480,9 @@ func (this *ClientImpl) ChangePassword(address string, oldPasswd, newPasswd []by
 	if bytes.Equal(oldPasswd, newPasswd) {
 		return nil
 	}
+	if len(newPasswd) == 0 {
+		return fmt.Errorf("password cannot empty")
+	}
 	this.lock.Lock()
 	defer this.lock.Unlock()
 	accData, ok := this.accAddrs[address]
